@@ -189,9 +189,42 @@ def _c_functions(run: Run, cy: CyProgram):
 
 def _shape_of_local(f: CyFunc, name):
     t = f.locals.get(name)
-    if t is None or t[1] is None:
+    if t is None:
         return None
     init = t[1]
+    if init is None:
+        # declared first, allocated by the one top-level assignment that follows:
+        # `a = np.zeros(shape)`, or element k of `a, b = [np.zeros(s) for s in
+        # (shape_a, shape_b)]`
+        cand = []
+        for st in f.body:
+            if st.k != "assign":
+                continue
+            for tg in st.a[0]:
+                if tg.k == "name" and tg.a[0] == name:
+                    cand.append(st.a[1])
+                elif tg.k == "tuple" and any(e.k == "name" and e.a[0] == name
+                                             for e in tg.a[0]):
+                    pos = [e.k == "name" and e.a[0] == name for e in tg.a[0]].index(True)
+                    v = st.a[1]
+                    if v.k == "listcomp" and v.a[1].k == "name" and \
+                            v.a[2].k in ("tuple", "list") and \
+                            len(v.a[2].a[0]) == len(tg.a[0]):
+                        from .loopir import _subst_names_x
+                        cand.append(_subst_names_x(v.a[0], {v.a[1].a[0]: v.a[2].a[0][pos]}))
+                    elif v.k in ("tuple", "list") and len(v.a[0]) == len(tg.a[0]):
+                        cand.append(v.a[0][pos])
+                    else:
+                        cand.append(None)
+        # every other store into the name (in nested code) disqualifies
+        nested = sum(1 for st in walk(f.body) if isinstance(st, X) and st.k == "assign"
+                     and any((tg.k == "name" and tg.a[0] == name) or
+                             (tg.k == "tuple" and any(e.k == "name" and e.a[0] == name
+                                                      for e in tg.a[0]))
+                             for tg in st.a[0]))
+        if len(cand) != 1 or cand[0] is None or nested != 1:
+            return None
+        init = cand[0]
     if init.k == "call" and pp(init.a[0]) in ("np.zeros", "np.empty", "np.ones") \
             and init.a[1]:
         sh = init.a[1][0]
@@ -949,20 +982,37 @@ def _guarded_positive(h) -> set:
     """C parameters whose wrapper argument is checked `< 1` / `<= 0` -> raise."""
     out = set()
     w = h.wrapper
-    for s in walk(w.body):
-        if isinstance(s, X) and s.k == "if":
-            for cond, b in s.a[0]:
-                raises = any(x.k == "raise" for x in b)
-                if not raises:
-                    continue
-                for c in ([cond] if cond.k != "boolop" else cond.a[1]):
-                    if c.k == "cmp" and c.a[1].k == "name" and c.a[2].k == "num":
-                        if (c.a[0] == "<" and c.a[2].a[0] >= 1) or \
-                                (c.a[0] == "<=" and c.a[2].a[0] >= 0):
-                            wname = c.a[1].a[0]
-                            p_ = h.w2c.get(wname)
-                            if p_ is not None:
-                                out |= p_.symbols()
+
+    def checked_names(body):
+        """names n for which `if n < 1 (or n <= 0): raise` stands in `body`"""
+        names = set()
+        for s in walk(body):
+            if isinstance(s, X) and s.k == "if":
+                for cond, b in s.a[0]:
+                    if not any(x.k == "raise" for x in b):
+                        continue
+                    for c in ([cond] if cond.k != "boolop" else cond.a[1]):
+                        if c.k == "cmp" and c.a[1].k == "name" and c.a[2].k == "num":
+                            if (c.a[0] == "<" and c.a[2].a[0] >= 1) or \
+                                    (c.a[0] == "<=" and c.a[2].a[0] >= 0):
+                                names.add(c.a[1].a[0])
+        return names
+    wnames = set(checked_names(w.body))
+    # the same test factored into a validation helper of the module, called as
+    # a statement at the top level of the wrapper: _require_positive(n, "n")
+    for st in w.body:
+        if st.k == "expr" and st.a[0].k == "call" and st.a[0].a[0].k == "name":
+            g = w.module.funcs.get(st.a[0].a[0].a[0])
+            if g is None or len(g.args) != len(st.a[0].a[1]):
+                continue
+            chk = checked_names(g.body)
+            for (pn, _), a in zip(g.args, st.a[0].a[1]):
+                if pn in chk and a.k == "name":
+                    wnames.add(a.a[0])
+    for wname in wnames:
+        p_ = h.w2c.get(wname)
+        if p_ is not None:
+            out |= p_.symbols()
     return out
 
 
